@@ -3,6 +3,6 @@
    the extracted Coq datatypes.  No Extract Constant / Extract Inductive of our own. *)
 Require Extraction.
 Require Import ExtrOcamlBasic.
-Require Import Base.Common Gen.LexTable Lex.Model Lex.C07Proofs Lex.Spec Lex.Product Lex.C05Defs Lex.C20Defs Cur.Model Tree.Value Tree.Canon Gen.Static Parse.Prim Parse.Model Parse.Entry Expr.Spec Print.Model Tree.Helpers Stmt.HelperEntry Ana.Model Ana.Entry.
+Require Import Base.Common Gen.LexTable Lex.Model Lex.C07Proofs Lex.Spec Lex.Product Lex.C05Defs Lex.C20Defs Cur.Model Tree.Value Tree.Canon Gen.Static Parse.Prim Parse.Model Parse.Entry Expr.Spec Print.Model Tree.Helpers Stmt.HelperEntry Ana.Model Ana.Entry Lin.Model Lin.Entry Cache.Model Lin.Proofs.
 Extraction Language OCaml.
-Extraction "modelx.ml" lex lex_full source group_marks flatten spec_lex classify_input devs_paths dev_family classify_input_mb devs_mb_paths has_ph_open run_ops mkcur parse_text all_sqltypes sqltype_name emit embed canon print helpers_text setwith_text no_list lex_handle_calls walk_text.
+Extraction "modelx.ml" lex lex_full source group_marks flatten spec_lex classify_input devs_paths dev_family classify_input_mb devs_mb_paths has_ph_open run_ops mkcur parse_text all_sqltypes sqltype_name emit embed canon print helpers_text setwith_text no_list lex_handle_calls walk_text lineage_text crun empty_world nice.
